@@ -7,6 +7,8 @@ package otter
 import (
 	"context"
 	"errors"
+	"sync/atomic"
+	"time"
 )
 
 func init() {
@@ -409,4 +411,85 @@ func ZZ_C08_Retry() {
 	}
 	vAssert(ninv >= 2 && ninv <= 4, "c08r.loader_invocation_count")
 	vAssert(c.cache.singleflight.getCall(1) == nil, "c08r.no_inflight_record_left")
+}
+
+func init() { vRegister("ZZ_C09_ReloadVsExpiredInvalidation", ZZ_C09_ReloadVsExpiredInvalidation) }
+
+// zzAClock is a manual clock that one thread may move while others read it.
+type zzAClock struct{ now atomic.Int64 }
+
+func (c *zzAClock) NowNano() int64                        { return c.now.Load() }
+func (c *zzAClock) Tick(d time.Duration) <-chan time.Time { return nil }
+
+// ZZ_C09_ReloadVsExpiredInvalidation: a cache with write-reset expiry and refresh; a reload of a live entry is in
+// flight (manual Refresh, the loader is a scheduling point) when the other
+// thread explicitly removes or rewrites the key — InvalidateAll, Invalidate or Set — possibly after the clock has passed
+// the entry's deadline (so that the node it meets is expired but not swept). The explicit operation stands: afterwards
+// the cache holds nothing (or the written value), never the reloaded one.
+func ZZ_C09_ReloadVsExpiredInvalidation() {
+	wop := vChoice("writer", 5)
+	wnames := []string{"Expire+InvalidateAll", "Expire+Invalidate", "InvalidateAll", "Expire+Set", "Expire+ComputeInvalidate"}
+	vScenario(wnames[wop])
+	clkm := &zzAClock{}
+	clkm.now.Store(1 << 32)
+	c := Must(&Options[int, int]{
+		Logger:            &NoopLogger{},
+		Clock:             clkm,
+		ExpiryCalculator:  ExpiryWriting[int, int](1000),
+		RefreshCalculator: RefreshWriting[int, int](10),
+		// same-goroutine executor: the reload runs in the refreshing thread, maintenance in whoever triggers it (two
+		// threads in all; with the default executor the schedule space of five threads did not finish in 15 minutes)
+		Executor: func(fn func()) { fn() },
+	})
+	vDaemons()
+	tick := &zzTick{}
+	const loaded, written, initial = 900, 700, 300
+	c.Set(1, initial)
+	c.CleanUp()
+	loadStart, loadEnd, loadCalls := 0, 0, 0
+	ld := LoaderFunc[int, int](func(ctx context.Context, key int) (int, error) {
+		loadStart = tick.now()
+		loadCalls++
+		vYield()
+		loadEnd = tick.now()
+		return loaded, nil
+	})
+	w0, w1 := 0, 0
+	L := func() { <-c.Refresh(context.Background(), 1, ld) }
+	W := func() {
+		defer func() { w1 = tick.now() }()
+		w0 = tick.now()
+		if wop != 2 {
+			clkm.now.Add(1000) // the deadline has been reached
+		}
+		switch wop {
+		case 0, 2:
+			c.InvalidateAll()
+		case 1:
+			c.Invalidate(1)
+		case 3:
+			c.Set(1, written)
+		case 4:
+			c.Compute(1, func(old int, found bool) (int, ComputeOp) { return 0, InvalidateOp })
+		}
+	}
+	vPar(L, W)
+	e, present := c.GetEntryQuietly(1)
+	if loadCalls == 1 && w0 > loadStart {
+		// two shapes: the explicit operation ran entirely while the loader was running (it must have cleared the in-flight
+		// reload), or it was still running when the loader returned and overlapped the installation
+		during := w1 < loadEnd
+		switch {
+		case wop == 3 && during:
+			vAssert(present && e.Value == written, "c09x.write_completed_during_the_reload_survives")
+		case wop == 3:
+			vAssert(present && e.Value == written, "c09x.write_overlapping_the_installation_survives")
+		case during:
+			vAssert(!present, "c09x.invalidation_completed_during_the_reload_survives")
+		default:
+			vAssert(!present, "c09x.invalidation_overlapping_the_installation_survives")
+		}
+	}
+	vAssert(loadCalls <= 1, "c09x.at_most_one_reload")
+	vAssert(c.cache.singleflight.getCall(1) == nil, "c09x.no_inflight_record_left")
 }
